@@ -5,31 +5,14 @@
    and every oracle: the result is NULL and nothing changed, or a pointer to a fresh block that holds
    the length header, exactly the stated bytes and (strings) the terminator - what the comparison
    helpers and the writer then read (ImpFactsCmp.v, ImpFactsFrame.v). *)
-From Sbdf Require Import ImpCall Gen.Prog Gen.Consts Base Prim BaseFacts ImpFacts ImpFacts7 ImpFactsFrame ImpFactsCmp.
+From Sbdf Require Import ImpCall Gen.Prog Gen.Consts Base Prim BaseFacts ImpBase.
 From Coq Require Import ZifyBool.
 Local Open Scope Z_scope.
 Ltac Zify.zify_post_hook ::= Z.div_mod_to_equations.
 
-(* ---- list facts ---- *)
-Lemma upd_nth_at (m : list Z) y ys x : upd_nth (List.length m) x (m ++ y :: ys) = m ++ x :: ys.
-Proof. induction m as [|a m IH]; cbn [List.length upd_nth app]; [reflexivity|]. now rewrite IH. Qed.
 
-Lemma upd_range_at xs : forall m ys rest, List.length ys = List.length xs ->
-  upd_range (List.length m) xs (m ++ ys ++ rest) = m ++ xs ++ rest.
-Proof.
-  induction xs as [|x xs IH]; intros m ys rest H.
-  - destruct ys; [reflexivity|discriminate].
-  - destruct ys as [|y ys]; [discriminate|]. cbn [upd_range app]. rewrite upd_nth_at.
-    replace (m ++ x :: ys ++ rest) with ((m ++ [x]) ++ ys ++ rest) by (rewrite <- app_assoc; reflexivity).
-    replace (S (List.length m)) with (List.length (m ++ [x])) by (rewrite app_length; cbn; lia).
-    rewrite IH by (cbn in H; lia). rewrite <- app_assoc. reflexivity.
-Qed.
 
-Lemma repeat_app_z {A} (x : A) a b : 0 <= a -> 0 <= b -> repeat x (Z.to_nat (a + b)) = repeat x (Z.to_nat a) ++ repeat x (Z.to_nat b).
-Proof. intros Ha Hb. rewrite Z2Nat.inj_add by lia. apply repeat_app. Qed.
 
-Lemma zlen_repeat {A} (x : A) n : 0 <= n -> zlen (repeat x (Z.to_nat n)) = n.
-Proof. intros H. unfold zlen. rewrite repeat_length. lia. Qed.
 
 Ltac evh := cbn [eval lookup update set_var String.eqb Ascii.eqb Bool.eqb vars inb outb truth cast binop_int b2z fst snd negb budget_var fail_var strm_var];
   change (0 =? 0) with true; change (1 =? 0) with false; cbn [negb b2z].
@@ -49,7 +32,6 @@ Definition aa (n : Z) (a bv : val) (k : Z) (m o : list Z) : state :=
   {| vars := [("length"%string, VInt n); ("alloc"%string, a); (budget_var, bv); (fail_var, VInt k); (strm_var, VBytes sx)]; inb := m; outb := o |}.
 
 
-Definition next_fail (k : Z) : Z := if 0 <? k then k - 1 else k.
 
 Lemma allocate_array_bs n a bv k m o : 0 <= n -> n <= int_max ->
   bsE prog_env (fbody prog_sbdf_allocate_array) (aa n a bv k m o)
@@ -95,13 +77,6 @@ Definition src_ok (sv : val) (n : Z) (m : list Z) (payload : list Z) : Prop :=
   | _ => False
   end.
 
-Lemma firstn_skipn_prefix {A} (m rest : list A) q n : 0 <= q -> 0 <= n -> q + n <= zlen m ->
-  firstn (Z.to_nat n) (skipn (Z.to_nat q) (m ++ rest)) = firstn (Z.to_nat n) (skipn (Z.to_nat q) m).
-Proof.
-  intros Hq Hn H. rewrite skipn_app. rewrite firstn_app.
-  replace (Z.to_nat n - List.length (skipn (Z.to_nat q) m))%nat with 0%nat by (rewrite skipn_length; unfold zlen in H; lia).
-  cbn [firstn]. now rewrite app_nil_r.
-Qed.
 
 Lemma src_len sv n m payload : 0 <= n -> src_ok sv n m payload -> zlen payload = n.
 Proof.
